@@ -845,6 +845,9 @@ func (g *gen) specCall(e *env, n *ast.CallExpr, want string, c *Clause) T {
 				gt = obj.Type()
 			}
 		}
+		if gt == nil && !ptr {
+			gt = g.specGoType(n.Args[1])
+		}
 		if gt == nil {
 			return fail("as: unknown type %s", tname)
 		}
@@ -886,8 +889,7 @@ func (g *gen) specCall(e *env, n *ast.CallExpr, want string, c *Clause) T {
 		// box(x): x converted to an interface value (what MakeInterface produces)
 		v := arg(0, "")
 		g.ensureSort(v.Sort)
-		fn := "box." + sortID(v.Sort)
-		g.declare(fn, fmt.Sprintf("(declare-fun %s (%s) Iface)\n(declare-fun un%s (Iface) %s)", fn, v.Sort, fn, v.Sort))
+		fn, _ := g.boxFns(v.Sort, v.GoT)
 		return T{S: sx(fn, v.S), Sort: sIface}
 	case "iterfresh":
 		// iterfresh(p): the pointer p was allocated in the current iteration of the innermost loop around the
@@ -1165,3 +1167,37 @@ func (g *gen) instSpec(sf *SpecFn) *specInst {
 }
 
 var _ = strconv.Itoa
+
+
+// specGoType resolves a composite type expression of the spec language (map[K]V, []T, *T, universe types)
+func (g *gen) specGoType(e ast.Expr) types.Type {
+	switch t := e.(type) {
+	case *ast.StarExpr:
+		if x := g.specGoType(t.X); x != nil {
+			return types.NewPointer(x)
+		}
+	case *ast.MapType:
+		k, v := g.specGoType(t.Key), g.specGoType(t.Value)
+		if k != nil && v != nil {
+			return types.NewMap(k, v)
+		}
+	case *ast.ArrayType:
+		if t.Len == nil {
+			if x := g.specGoType(t.Elt); x != nil {
+				return types.NewSlice(x)
+			}
+		}
+	case *ast.Ident:
+		if obj, ok := types.Universe.Lookup(t.Name).(*types.TypeName); ok {
+			return obj.Type()
+		}
+		if pk := g.pkgTypes(); pk != nil {
+			if obj, ok := pk.Scope().Lookup(t.Name).(*types.TypeName); ok {
+				return obj.Type()
+			}
+		}
+	case *ast.SelectorExpr:
+		return g.w.lookupGoType(exprString(t))
+	}
+	return nil
+}
